@@ -24,7 +24,8 @@ ForgeriesQuick == <<
   D(1, "bad", "ok", "none"),
   D(1, "keymismatch", "ok", "none"),
   U(8, 9, "ok", "ok", "none", 45),
-  U(5, 4, "bad", "ok", "none", 48)     \* next commitment already consumed earlier in the chain
+  U(5, 4, "bad", "ok", "none", 48),    \* next commitment already consumed earlier in the chain
+  U(4, 8, "bad", "absent", "none", 49) \* no delta member at all
 >>
 
 ForgeriesMore == <<
